@@ -59,6 +59,7 @@ def groups():
                     _gen_build('gen_disp.c', 'fetchVariableRegister', cdefs=['REG_CAP=4'], unwind=6), timeout=900,
                     bounded='BOUNDED stand-in: at most 4 registers in the frame, --unwind 6 --unwinding-assertions (the search loop lives in a function with an explicit parameter: its counter cannot be named in a loop contract)'))
     REPL = ['w_fetchTemporary/c_fetchTemporary', 'w_fetchVariableRegister/c_fetchVariableRegister', 'w_dispatchValue/c_dispatchValue', 'w_dispatchVoid/c_dispatchVoid']
+    REPL_ASSIGN = ['w_fetchTemporary/c_fetchTemporary', 'w_fetchVariableRegister/c_fetchVariableRegister_rec', 'w_dispatchValue/c_dispatchValue_rec2', 'w_dispatchVoid/c_dispatchVoid']
     REPL_REC = REPL[:-1] + ['w_dispatchVoid/c_dispatchVoid_rec']  # the body call records the intermediate state
     gs.append(Group('gen_dispatchLoop', ['C01', 'C16', 'C03', 'C07'], 'dispatchLoop (Compiler/src/gen.cpp)', 'c_dispatchLoop',
                     _gen_build('gen_disp.c', 'dispatchLoop', redirect='dispatchLoop', replace=REPL_REC), timeout=900,
@@ -66,7 +67,7 @@ def groups():
     for fn, props in (('dispatchWhile', ['C01', 'C03', 'C07']), ('dispatchGoto', ['C01', 'C03']), ('dispatchMark', ['C01', 'C03', 'C07']),
                       ('dispatchAssign', ['C01']), ('dispatchArgs', ['C03', 'C01']), ('dispatchIf', ['C01', 'C03'])):
         gs.append(Group('gen_' + fn, props, f'{fn} (Compiler/src/gen.cpp)', 'c_' + fn,
-                        _gen_build('gen_disp.c', fn, redirect=fn, replace=(REPL_REC if fn == 'dispatchWhile' else REPL) + (['w_dispatchArgs_rec/c_dispatchArgs_callee'] if fn == 'dispatchArgs' else [])),
+                        _gen_build('gen_disp.c', fn, redirect=fn, replace=(REPL_REC if fn == 'dispatchWhile' else REPL_ASSIGN if fn == 'dispatchAssign' else REPL) + (['w_dispatchArgs_rec/c_dispatchArgs_callee'] if fn == 'dispatchArgs' else [])),
                         timeout=900, note='callees fetchTemporary, fetchVariableRegister, dispatchValue, dispatchVoid replaced by their contracts; the mark table holds at most 4 marks'))
     gs.append(Group('genU_dispatchValue', ['C03', 'C04', 'C16', 'C01', 'C20', 'C02'], 'dispatchValue + dispatchCallArgs (Compiler/src/gen.cpp)', 'c_dispatchValue_top',
                     _gen_build('gen_disp.c', 'dispatchValue_top', redirect=['dispatchValue', 'dispatchCallArgs'], unwind=5, unwindset='__CPROVER_contracts_write_set_check_assigns_clause_inclusion.0:40',
@@ -88,6 +89,7 @@ def groups():
                         _gen_build('gen_sym.c', 'popSymbols', unwind=kr + 2, cdefs=[f'K_REG={kr}', f'K_TBL={kt}']), timeout=3600, tier=tier,
                         bounded=f'BOUNDED stand-in: <= 2 marks, <= {kr} registers in the routine being finished, tables of capacity {kt}, --unwind {kr + 2} --unwinding-assertions (its two loops live in a function whose locals cannot be named in loop contracts)'))
     gs += drv_groups()
+    gs += top_groups()
     return gs
 
 
@@ -125,4 +127,4 @@ def drv_groups():
 def top_groups():
     return [Group('gen_gen', ['C02', 'C03', 'C04', 'C01', 'C16', 'C17', 'C19'], 'Theo::gen (Compiler/src/gen.cpp)', 'c_gen',
                   _drv_build('gen', 'gen', ['w_gen_ast/c_gen_ast_g', 'w_popSymbols/c_popSymbols_g', 'w_backpatch/c_backpatch_g'], 'w_gen/c_gen', csrc='gen_top.c'),
-                  timeout=900, note='gen_ast, popSymbols, backpatch replaced by contracts over the local generator state (N12 hook records its address)')]
+                  timeout=3600, note='gen_ast, popSymbols, backpatch replaced by contracts over the local generator state (N12 hook records its address)')]
